@@ -22,6 +22,18 @@ def sh(cmd, cwd=None, timeout=1800, env=None):
     return p.returncode, p.stdout
 
 
+def clean_etcd_tmp():
+    """pkg/cluster's own tests leave ~800 MB etcd homes in /tmp/<6 hex> on every run"""
+    import glob, shutil as _sh
+    for d in glob.glob("/tmp/" + "[0-9a-f]" * 6):
+        if os.path.isdir(d) and any(n.startswith(("test-member-", "static-cluster-test-member-")) for n in os.listdir(d)):
+            try:
+                if time.time() - os.path.getmtime(d) > 600:
+                    _sh.rmtree(d, ignore_errors=True)
+            except OSError:
+                pass
+
+
 def main():
     src, sid, props = sys.argv[1], sys.argv[2], sys.argv[3:]
     wt = "/tmp/coord/seedwt_%s" % sid
@@ -55,6 +67,8 @@ def main():
             shutil.copy(os.path.join(src, f), os.path.join(wt, dst))
             placed.append(dst)
         cmds = [l.strip() for l in run_txt.splitlines() if l.strip().startswith("go test") or l.strip().startswith("go run")]
+        if not cmds:
+            cmds = [m.group(1).strip() for m in re.finditer(r"(go (?:test|run) [^\n]*)", run_txt)]
         assert cmds, "no go command in RUN.txt"
         modfile = "/tmp/coord/go.seed.mod"
         shutil.copy(os.path.join(wt, "go.mod"), modfile)
@@ -108,6 +122,7 @@ def main():
         res["caught_by"] = [p for p, r in res["checks"].items() if r["exit"] != 0 and any(l.startswith("VIOLATION") for l in r["lines"])]
     finally:
         sh(["git", "-C", "/repo", "worktree", "remove", "--force", wt])
+        clean_etcd_tmp()
     dst = os.path.join(V, "seeded", sid)
     os.makedirs(dst, exist_ok=True)
     for f in os.listdir(src):
